@@ -26,6 +26,7 @@ import (
 	"github.com/samaritan-proxy/samaritan/pb/config/service"
 	"github.com/samaritan-proxy/samaritan/proc/internal/log"
 	netutil "github.com/samaritan-proxy/samaritan/proc/internal/net"
+	"github.com/samaritan-proxy/samaritan/utils/vhook"
 )
 
 type ConnHandlerFunc func(conn net.Conn)
@@ -115,8 +116,10 @@ func (l *listener) Serve() error {
 		}
 	}
 
+	vhook.At("listener.serve.after_bind")
 	l.ln = ln
 	l.Infof("start serving at %s", ln.Addr().String())
+	vhook.At("listener.serve.before_accept")
 	l.serve()
 	l.Infof("stop serving at %s, waiting all conns done", ln.Addr().String())
 
